@@ -183,6 +183,20 @@ def run_poses(case):
     # inputs untouched
     if not _peq(A, _mk(case['A']), 0) or not _peq(B, _mk(case['B']), 0):
         out.fail('pose:inputs-modified', desc)
+    # a pose that has been used and is then re-scaled (as the system scaler does with copies of the solved poses) is still a rigid motion
+    import copy
+    f = case.get('scale', 2.0)
+    for name, S in (('scaled A', A), ('scaled copy of B', copy.copy(B))):
+        t_before = np.array(S.translation, float)
+        S.scale(f)
+        if np.max(np.abs(S.translation - t_before * f)) > 1e-12 * max(1.0, abs(f)):
+            out.fail('pose:scale', '%s: %s by %r' % (desc, name, f))
+        q = S.inv_rotate_translate(S.rotate_translate(pt))
+        q2 = S.rotate_translate(S.inv_rotate_translate(pt))
+        if np.max(np.abs(q - pt)) > 1e-8 * max(1.0, abs(f)) or np.max(np.abs(q2 - pt)) > 1e-8 * max(1.0, abs(f)):
+            out.fail('pose:point-inverse:after-scale', '%s: %s by %r: inverse(forward(p)) = %r' % (desc, name, f, q.tolist()))
+        if not _peq(S.inv_rotate_translate_pose(S.rotate_translate_pose(C)), C, 1e-8 * max(1.0, abs(f))):
+            out.fail('pose:pose-inverse:after-scale', '%s: %s by %r' % (desc, name, f))
     return out
 
 
@@ -209,7 +223,7 @@ def _rotvec(draw):
 _trans = st.lists(st.one_of(st.floats(-10, 10, allow_nan=False), st.sampled_from([0.0, 1.0, -10.0])), min_size=3, max_size=3)
 _pose = st.one_of(st.fixed_dictionaries({'r': _rotvec(), 't': _trans}), st.fixed_dictionaries({'r': _rotvec(), 't': _trans}),
                   st.fixed_dictionaries({'m': st.integers(0, 23), 't': _trans}))
-pose_strategy = st.fixed_dictionaries({'A': _pose, 'B': _pose, 'C': _pose, 'point': _trans})
+pose_strategy = st.fixed_dictionaries({'A': _pose, 'B': _pose, 'C': _pose, 'point': _trans, 'scale': st.sampled_from([0.5, 2.0, 1.26, 1.0, 0.2, 5.0])})
 
 
 # ---------------------------------------------------------------- solver projection
@@ -222,6 +236,7 @@ def run_solver(case):
     defs = LighthouseGeometrySolution()
     sens = LhDeck4SensorPositions.positions
     bs_p, cf_p, sp, ref = [], [], [], []
+    bs_lib, cf_lib = [], []
     special = False
     for pr in pairs:
         bs_r, bs_t, cf_r, cf_t = np.array(pr['bs_r'], float), np.array(pr['bs_t'], float), np.array(pr['cf_r'], float), np.array(pr['cf_t'], float)
@@ -236,6 +251,9 @@ def run_solver(case):
                 continue        # on/near the plane x=0 both paths are ill-conditioned
             bs_p.append(np.concatenate((bs_r, bs_t)))
             cf_p.append(np.concatenate((cf_r, cf_t)))
+            # the parameters as the solver itself derives them from the pose objects
+            bs_lib.append(np.asarray(LighthouseGeometrySolver._pose_to_params(bsP), float))
+            cf_lib.append(np.asarray(LighthouseGeometrySolver._pose_to_params(cfP), float))
             sp.append(sens[si])
             v = LighthouseBsVector.from_cart(p)
             ref.append((math.atan2(p[1], p[0]), math.atan2(p[2], p[0]), v.lh_v1_horiz_angle, v.lh_v1_vert_angle))
@@ -253,6 +271,12 @@ def run_solver(case):
                      'bs %r cf %r sensor %r: solver (%.9f, %.9f), Pose/atan2 (%.9f, %.9f)' % (bs_p[k].tolist(), cf_p[k].tolist(), sp[k].tolist(),
                                                                                          got[k][0], got[k][1], r[0], r[1]))
             break
+    got2 = LighthouseGeometrySolver._calc_angle_pairs(np.array(bs_lib), np.array(cf_lib), np.array(sp), defs)
+    for k, r in enumerate(ref):
+        if _ad(got2[k][0], r[0]) > 1e-7 or _ad(got2[k][1], r[1]) > 1e-7:
+            out.fail('solver:pose-to-params', 'bs %r cf %r sensor %r: with the solver\'s own parameters %r / %r it projects to (%.9f, %.9f), Pose/atan2 (%.9f, %.9f)' % (
+                bs_p[k].tolist(), cf_p[k].tolist(), sp[k].tolist(), bs_lib[k].tolist(), cf_lib[k].tolist(), got2[k][0], got2[k][1], r[0], r[1]))
+            break
     return out
 
 
@@ -263,7 +287,8 @@ def _anyrotvec(draw):
         return [0.0, 0.0, 0.0]
     if kind == 'half-turn':
         # exactly (or within a hair of) half a turn: facing backwards, upside down, about a diagonal
-        ax = np.array(draw(st.sampled_from([[1.0, 0, 0], [0, 1.0, 0], [0, 0, 1.0], [1.0, 1.0, 0], [0, 1.0, -1.0], [1.0, 1.0, 1.0]])), float)
+        ax = np.array(draw(st.sampled_from([[1.0, 0, 0], [0, 1.0, 0], [0, 0, 1.0], [1.0, 1.0, 0], [0, 1.0, -1.0], [1.0, 1.0, 1.0], [1.0, 2.0, 2.0], [2.0, 3.0, 6.0],
+                                          [-2.0, 1.0, 2.0]])), float)
         ax = ax / np.linalg.norm(ax)
         ang = math.pi + draw(st.sampled_from([0.0, 0.0, 1e-9, -1e-9, 1e-7, -1e-6]))
         return [float(x) for x in ax * ang]
